@@ -445,7 +445,12 @@ func (sw *sweeper) reads(a Analysis) {
 					continue
 				}
 				n++
-				sw.add(tag+"/"+k+"/read:"+fname, "reads", "source text and token positions are read only while constructing error values", allowed[k], fname+" read in "+k, ins.Pos())
+				ok = allowed[k]
+				if !ok {
+					// a read outside the error constructors is fine when the value only flows into their arguments
+					ok = sw.flowsOnlyInto(ins.(ssa.Value), allowed, 0)
+				}
+				sw.add(tag+"/"+k+"/read:"+fname, "reads", "source text and token positions are read only to construct error values", ok, fname+" read in "+k+" and used outside error construction", ins.Pos())
 			}
 		}
 	}
@@ -799,4 +804,28 @@ func (sw *sweeper) guardedcall(a Analysis) {
 		}
 	}
 	sw.add(tag+"/site-exists", "guardedcall", "the guarded call site exists", n >= 1, "no call of "+callee+" in "+fnKey, token.NoPos)
+}
+
+// flowsOnlyInto: every use of v (through loads) is an argument of a call to one of the allowed functions.
+func (sw *sweeper) flowsOnlyInto(v ssa.Value, allowed map[string]bool, depth int) bool {
+	if depth > 6 || v.Referrers() == nil {
+		return false
+	}
+	for _, r := range *v.Referrers() {
+		switch x := r.(type) {
+		case *ssa.DebugRef:
+		case *ssa.UnOp:
+			if x.Op != token.MUL || !sw.flowsOnlyInto(x, allowed, depth+1) {
+				return false
+			}
+		case *ssa.Call:
+			sc := x.Common().StaticCallee()
+			if sc == nil || !allowed[sw.key(sc)] {
+				return false
+			}
+		default:
+			return false
+		}
+	}
+	return true
 }
